@@ -15,6 +15,12 @@ CheckpointPeriod == 8
 IndexBytesPerDoc == 8          \* the writer counts size_of::<usize>() per document of the block
 StackMinBlocks == 6            \* a source is stacked only with >= 6 blocks, no deletes, same codec
 
+\* Every string / bytes value (and array / object table) of a document is prefixed by its length as a
+\* variable-length integer of 7 bits per byte: the encoding switches to one more byte at these lengths.
+\* The generator emits stored values of length switch - 1, switch, switch + 1 (2^28 = 256 MiB is not exercised).
+VintLen(n) == IF n < 2 ^ 7 THEN 1 ELSE IF n < 2 ^ 14 THEN 2 ELSE IF n < 2 ^ 21 THEN 3 ELSE IF n < 2 ^ 28 THEN 4 ELSE 5
+VintSwitches == {2 ^ 7, 2 ^ 14, 2 ^ 21}
+
 -----------------------------------------------------------------------------
 (* Block cut rule (StoreWriter::check_flush_block): after a document was appended, the block  *)
 (* is closed when its bytes + 8 * its number of documents exceed the block size.              *)
